@@ -142,6 +142,8 @@ def _arg0_kind(args: list[ast.expr], node_names: tuple[str, ...]) -> str:
 
 def _action(h: ast.ExceptHandler, where: str, node_names: tuple[str, ...]) -> str:
 	body = h.body
+	if len(body) == 1 and isinstance(body[0], ast.Raise) and body[0].exc is None:
+		return '.reraise'
 	if len(body) == 1:
 		r = _raised_errors_class(body[0])
 		if r is not None:
@@ -246,6 +248,44 @@ def parser_tables() -> tuple[dict[str, list[str]], dict[str, bool]]:
 	return {'parserDiskHandlers': _handlers(t, '__load_entry[on-disk]', ()), 'parserMemHandlers': mem}, {'sourceCompletesNewline': completes, 'sourceCompletionSkipsEmpty': skips_empty}
 
 
+def modules_tables() -> dict[str, list[str]]:
+	"""Modules.load: pinned tree = no try statement; repaired tree (8079937) =
+	`try: <libraries; re-check; loader.load; try: dependencies; preprocess except Exception: self.unload(module_path); raise>`
+	`except Errors.Error: raise` / `except Exception as e: raise Errors.Fatal(module_path, ...) from e`."""
+	path = os.path.join(REPO, 'rogw/tranp/module/modules.py')
+	with open(path, encoding='utf-8') as f:
+		tree = ast.parse(f.read())
+	fn = _find_func(tree, 'Modules', 'load')
+	tries = [n for n in ast.walk(fn) if isinstance(n, ast.Try)]
+	if not tries:
+		return {'modulesLoadHandlers': [], 'modulesLoadRollbackCatch': []}
+	outer = [s for s in fn.body if isinstance(s, ast.Try)]
+	if len(outer) != 1 or len(tries) != 2 or outer[0].orelse or outer[0].finalbody:
+		raise TranslateError('Modules.load: expected one outer try with one nested try')
+	inner = [t for t in tries if t is not outer[0]][0]
+	if inner.orelse or inner.finalbody or len(inner.handlers) != 1:
+		raise TranslateError('Modules.load: unrecognised inner try')
+	h = inner.handlers[0]
+	body = [ast.unparse(x) for x in h.body]
+	if body != ['self.unload(module_path)', 'raise']:
+		raise TranslateError(f'Modules.load: inner handler is not `self.unload(module_path); raise`: {body}')
+	inner_body = [ast.unparse(x) for x in inner.body]
+	if inner_body != ['self.__load_dependencies(self.__modules[module_path])', 'self.__loader.preprocess(self.__modules[module_path])']:
+		raise TranslateError(f'Modules.load: unrecognised inner try body {inner_body}')
+	ifs = [x for x in outer[0].body if isinstance(x, ast.If)]
+	if len(outer[0].body) != 2 or len(ifs) != 2 or any(ast.unparse(i.test) != 'module_path not in self.__modules' for i in ifs):
+		raise TranslateError('Modules.load: expected `if not registered: libraries` ; `if not registered: load, try …`')
+	if [ast.unparse(x) for x in ifs[0].body] != ['self.__load_libraries(module_path)']:
+		raise TranslateError('Modules.load: first block is not the library load')
+	second = ifs[1].body
+	if not (len(second) == 2 and ast.unparse(second[0]) == 'self.__modules[module_path] = self.__loader.load(ModulePath(module_path, language))' and second[1] is inner):
+		raise TranslateError('Modules.load: second block is not `register loader.load(...)` ; inner try')
+	return {
+		'modulesLoadHandlers': _handlers(outer[0], 'Modules.load', ()),
+		'modulesLoadRollbackCatch': [_catch_atom(h.type, 'Modules.load')],
+	}
+
+
 def interactive_tables() -> dict[str, list[str]]:
 	path = os.path.join(REPO, 'rogw/tranp/bin/transpile.py')
 	with open(path, encoding='utf-8') as f:
@@ -323,7 +363,7 @@ def render(errs: list[tuple[str, str, bool]], bis: list[tuple[str, str | None]],
 	L.append('  GENERATED by verif/translate/gen_errors.py — do not edit.')
 	L.append('  Sources: rogw/tranp/errors.py, CPython builtins, and the except clauses of')
 	L.append('  semantics/procedure.py (Procedure.__emit/__make_event/__exec_impl), implements/syntax/lark/parser.py')
-	L.append('  (SyntaxParserOfLark.__load_entry), bin/transpile.py (Interactive.run); early returns of view/error_render.py (__build_quotation).')
+	L.append('  (SyntaxParserOfLark.__load_entry), bin/transpile.py (Interactive.run), module/modules.py (Modules.load); early returns of view/error_render.py (__build_quotation).')
 	L.append('-/')
 	L.append('namespace Tranp.Generated.ErrorsTable')
 	L.append('')
@@ -385,6 +425,7 @@ def render(errs: list[tuple[str, str, bool]], bis: list[tuple[str, str | None]],
 	L.append('inductive Action')
 	L.append('  | wrap (n : ErrName) (arg0 : Arg0)  -- `raise Errors.<n>(<arg0>, ...) from e`')
 	L.append('  | renode                            -- `if len(e.args) > 0 and not isinstance(e.args[0], Node): raise e.__class__(node) from e` ; `raise e`')
+	L.append('  | reraise                           -- bare `raise`')
 	L.append('  deriving DecidableEq, Repr')
 	L.append('')
 	L.append('structure Handler where')
@@ -392,9 +433,9 @@ def render(errs: list[tuple[str, str, bool]], bis: list[tuple[str, str | None]],
 	L.append('  action : Action')
 	L.append('  deriving DecidableEq, Repr')
 	L.append('')
-	for name in ['emitHandlers', 'makeEventHandlers', 'execImplHandlers', 'parserDiskHandlers', 'parserMemHandlers']:
+	for name in ['emitHandlers', 'makeEventHandlers', 'execImplHandlers', 'parserDiskHandlers', 'parserMemHandlers', 'modulesLoadHandlers']:
 		L.append(f'def {name} : List Handler := [' + ', '.join(tables[name]) + ']')
-	for name in ['interactiveInnerCatch', 'interactiveOuterCatch']:
+	for name in ['interactiveInnerCatch', 'interactiveOuterCatch', 'modulesLoadRollbackCatch']:
 		L.append(f'def {name} : List Atom := [' + ', '.join(tables[name]) + ']')
 	L.append('')
 	L.append('/-- SyntaxParserOfLark.__load_source appends a line feed to a text that does not end in one (both branches) -/')
@@ -417,7 +458,7 @@ def generate() -> list[dict[str, Any]]:
 	errs = errors_hierarchy()
 	bis = builtin_hierarchy()
 	ptables, pflags = parser_tables()
-	tables = {**procedure_tables(), **ptables, **interactive_tables()}
+	tables = {**procedure_tables(), **ptables, **interactive_tables(), **modules_tables()}
 	for need in ('Exception', 'BaseException', 'TypeError', 'AssertionError', 'KeyboardInterrupt'):
 		if need not in [k for k, _ in bis]:
 			raise TranslateError(f'builtin {need} missing')
@@ -431,6 +472,7 @@ def generate() -> list[dict[str, Any]]:
 		'builtin_classes': len(bis),
 		'handlers': {k: len(v) for k, v in tables.items()},
 		'mem_branch_wrapped': bool(tables['parserMemHandlers']),
+		'modules_load_normalised': bool(tables['modulesLoadHandlers']),
 		'source_completes_newline': flags['sourceCompletesNewline'],
 		'source_completion_skips_empty': flags['sourceCompletionSkipsEmpty'],
 		'quotation_span_guard': flags['quotationSpanGuard'],
